@@ -1303,6 +1303,9 @@ def discarded_results(fn):
             continue
         if (e.get("ty") or "").startswith("core::result::Result<"):
             out.append(e)
+        elif e.get("k") == "mcall" and e["name"] in ("ok", "err", "is_ok", "is_err", "unwrap_or_default", "unwrap_or", "unwrap_or_else") \
+                and (H.peel(e["recv"], refs=False).get("ty") or "").startswith("core::result::Result<"):
+            out.append(e)        # `result.ok();` and friends: the error is thrown away
     return out
 
 
@@ -1368,3 +1371,32 @@ def sort_key_total(q, R, rid, cx, fn, o, key):
            detail="two entries with equal sort key keep their (insertion-dependent) map order, so the key must determine the map key")
 
 
+
+
+def option_conditions(body_root, node, local_id):
+    """Is `node` evaluated only when the Option in local `local_id` is Some / None?  -> set of {"some", "none"} established by the
+    enclosing `if let` / `match` / is_some() / is_none() conditions."""
+    out = set()
+    for kind, cn, pol in H.path_conditions(body_root, node):
+        if kind == "iflet":
+            v = H.pat_variant(cn["pat"])
+            loc = H.local_of(cn["init"])
+            if v and loc and loc[0] == local_id and v[1] in ("Some", "None"):
+                is_some = (v[1] == "Some") == bool(pol)
+                out.add("some" if is_some else "none")
+        elif kind == "arm":
+            loc = H.local_of(cn["scrut"])
+            if loc and loc[0] == local_id:
+                a = cn["arms"][pol]
+                v = H.pat_variant(a["pat"])
+                others = [H.pat_variant(x["pat"]) for x in cn["arms"] if x is not a]
+                if v and v[1] in ("Some", "None"):
+                    out.add(v[1].lower())
+                elif H.pat_peel(a["pat"]).get("k") == "wild" and len(others) == 1 and others[0] and others[0][1] in ("Some", "None"):
+                    out.add("none" if others[0][1] == "Some" else "some")
+        elif kind in ("if", "after-exit"):
+            inner, neg = H.negate_peel(cn)
+            if inner.get("k") == "mcall" and inner["name"] in ("is_some", "is_none") and H.local_of(inner["recv"]) and H.local_of(inner["recv"])[0] == local_id:
+                val = (pol != neg)
+                out.add("some" if (inner["name"] == "is_some") == val else "none")
+    return out
